@@ -281,6 +281,10 @@ func run(sc *h.Scenario) *h.Rec {
 	initID, _ := sc.P["init"].(string)
 	mode, _ := sc.P["mode"].(string)
 	wait, _ := sc.P["wait"].(bool)
+	holdMs := 2 // how long a held write stays inside the member after the script's last step before writeEnd
+	if v, ok := sc.P["holdMs"].(float64); ok && v > 0 {
+		holdMs = int(v)
+	}
 	rr := strs(sc.P["rr"])
 	cerr := strs(sc.P["closeErr"])
 	sort.Strings(cerr)
@@ -593,7 +597,7 @@ func run(sc *h.Scenario) *h.Rec {
 				rec.Log("MtOp", "a", "writeEnd", "ret", "ok", "wait", false, "probe", "none")
 				continue
 			}
-			time.Sleep(2 * time.Millisecond) // the selections issued meanwhile have reached transportIDLoop's side of the pipeline
+			time.Sleep(time.Duration(holdMs) * time.Millisecond) // the selections issued meanwhile have reached transportIDLoop's side of the pipeline
 			close(heldRelease)
 			ret := "timeout"
 			select {
